@@ -1,11 +1,168 @@
+import OdmlModel.Py.Csv
+import OdmlModel.Model.XmlCsv
+import OdmlModel.Model.XmlDoc
+import OdmlModel.Model.Xml
+import OdmlModel.Model.XmlRepr
 import Driver.Util
 import Driver.Loop
 open Lean Drv
 
 namespace DrvC01
+open Xml
 
-/-- Stub: replaced when the model of C01 is built. -/
-def handle (_j : Json) : Except String Json := throw "model of C01 not built"
+def optStr (j : Json) (k : String) : Except String (Option Str) :=
+  match j.getObjVal? k with
+  | .ok (.str s) => pure (some s.toList)
+  | .ok .null => pure none
+  | .error _ => pure none
+  | .ok _ => throw s!"bad text field {k}"
+
+def encOpt : Option Str → Json
+  | none => Json.null
+  | some s => jchars s
+
+def decBound (x : Json) : Except String (Option Int) :=
+  match x with
+  | .null => pure none
+  | .num n => pure (some n.mantissa)
+  | _ => throw "bad bound"
+
+def decCard (j : Json) (k : String) : Except String Card.Card :=
+  match j.getObjVal? k with
+  | .ok (.arr #[a, b]) => do pure (some (← decBound a, ← decBound b))
+  | .ok .null => pure none
+  | .error _ => pure none
+  | .ok _ => throw "bad card"
+
+def encCard : Card.Card → Json
+  | none => Json.null
+  | some (a, b) => jarr [optInt a, optInt b]
+
+def decVal (j : Json) : Except String Val :=
+  match j with
+  | .null => pure .nul
+  | _ => do
+    if let .ok s := getStr j "s" then return .str s.toList
+    if let .ok i := getInt j "i" then return .int i
+    if let .ok b := getBool j "b" then return .bool b
+    if let .ok s := getStr j "k" then return .tok s.toList
+    if let .ok xs := getArr j "t" then
+      return .tuple (← xs.toList.mapM fun x => match x with
+        | .str s => pure s.toList
+        | _ => throw "bad tuple item")
+    throw "bad value"
+
+def encVal : Val → Json
+  | .str s => jobj [("s", jchars s)]
+  | .int i => jobj [("i", jint i)]
+  | .bool b => jobj [("b", jbool b)]
+  | .tok s => jobj [("k", jchars s)]
+  | .tuple xs => jobj [("t", jarr (xs.map jchars))]
+  | .nul => Json.null
+
+def decProp (j : Json) : Except String PropT := do
+  let unc ← match j.getObjVal? "uncertainty" with
+    | .ok (.obj _) => do
+      let u ← getVal j "uncertainty"
+      pure (some (⟨← getBool u "num", (← getStr u "text").toList⟩ : Unc))
+    | _ => pure none
+  pure { id := ← optStr j "id", name := ← optStr j "name",
+         values := ← (← getArr j "values").toList.mapM decVal,
+         dtype := ← optStr j "dtype", unit := ← optStr j "unit",
+         definition := ← optStr j "definition", dependency := ← optStr j "dependency",
+         dependencyValue := ← optStr j "dependency_value", uncertainty := unc,
+         reference := ← optStr j "reference", valueOrigin := ← optStr j "value_origin",
+         valCard := ← decCard j "val_card" }
+
+def encProp (p : PropT) : Json :=
+  jobj [("id", encOpt p.id), ("name", encOpt p.name), ("values", jarr (p.values.map encVal)),
+        ("dtype", encOpt p.dtype), ("unit", encOpt p.unit), ("definition", encOpt p.definition),
+        ("dependency", encOpt p.dependency), ("dependency_value", encOpt p.dependencyValue),
+        ("uncertainty", match p.uncertainty with
+          | none => Json.null
+          | some u => jobj [("num", jbool u.isNum), ("text", jchars u.text)]),
+        ("reference", encOpt p.reference), ("value_origin", encOpt p.valueOrigin),
+        ("val_card", encCard p.valCard)]
+
+partial def decSec (j : Json) : Except String SecT := do
+  let secs ← (← getArr j "secs").toList.mapM decSec
+  let props ← (← getArr j "props").toList.mapM decProp
+  pure (.mk (← optStr j "id") (← optStr j "name") (← optStr j "type") (← optStr j "definition")
+    (← optStr j "reference") (← optStr j "link") (← optStr j "repository") (← optStr j "include")
+    secs props (← decCard j "sec_card") (← decCard j "prop_card"))
+
+partial def encSec : SecT → Json
+  | .mk id name type defn ref link repo incl secs props sc pc =>
+    jobj [("id", encOpt id), ("name", encOpt name), ("type", encOpt type),
+          ("definition", encOpt defn), ("reference", encOpt ref), ("link", encOpt link),
+          ("repository", encOpt repo), ("include", encOpt incl),
+          ("secs", jarr (secs.map encSec)), ("props", jarr (props.map encProp)),
+          ("sec_card", encCard sc), ("prop_card", encCard pc)]
+
+def decDoc (j : Json) : Except String DocT := do
+  pure { id := ← optStr j "id", version := ← optStr j "version", author := ← optStr j "author",
+         date := ← optStr j "date", repository := ← optStr j "repository",
+         secs := ← (← getArr j "secs").toList.mapM decSec }
+
+def encDoc (d : DocT) : Json :=
+  jobj [("id", encOpt d.id), ("version", encOpt d.version), ("author", encOpt d.author),
+        ("date", encOpt d.date), ("repository", encOpt d.repository),
+        ("secs", jarr (d.secs.map encSec))]
+
+partial def decX (j : Json) : Except String X := do
+  let attrs ← (← getArr j "attrs").toList.mapM fun a =>
+    match a with
+    | .arr #[.str k, .str v] => pure (k, v.toList)
+    | _ => throw "bad attr"
+  pure (.elem (← getStr j "tag") attrs (← optStr j "text") (← (← getArr j "kids").toList.mapM decX))
+
+partial def encX : X → Json
+  | .elem tag attrs text kids =>
+    jobj [("tag", jstr tag), ("attrs", jarr (attrs.map fun kv => jarr [jstr kv.1, jchars kv.2])),
+          ("text", encOpt text), ("kids", jarr (kids.map encX))]
+
+def strList (j : Json) (k : String) : Except String (List Str) := do
+  (← getArr j k).toList.mapM fun x => match x with
+    | .str s => pure s.toList
+    | _ => throw "bad string list"
+
+def encCsvRes : Except Py.Csv.Err (List Str) → Json
+  | .ok fs => jobj [("ok", jarr (fs.map jchars))]
+  | .error .csvError => jobj [("raised", "csv")]
+  | .error .noRecord => jobj [("raised", "index")]
+
+/-- the token contract as the driver instantiates it: canonical tokens only (harness keeps
+    non-canonical float/date texts out of the modelled stream) -/
+def idLib : TokLib := ⟨fun _ t => some t⟩
+
+def encRErr : RErr → Json
+  | .parser => "parser"
+  | .invalidVersion => "invalidVersion"
+  | .leak => "leak"
+  | .unmodelled => "unmodelled"
+
+def handle (j : Json) : Except String Json := do
+  let op ← getStr j "op"
+  match op with
+  | "csv_write" => pure (jchars (Py.Csv.writeRow (← strList j "row")))
+  | "csv_read" => pure (encCsvRes (Py.Csv.readFirst (← getStr j "s").toList))
+  | "to_csv" => pure (jchars (toCsv (← strList j "vals")))
+  | "to_csv_legacy" => pure (jchars (toCsvLegacy (← strList j "vals")))
+  | "from_csv" => pure (encCsvRes (fromCsv (← getStr j "s").toList))
+  | "write" =>
+    let d ← decDoc (← getVal j "doc")
+    let flags := [("wf", jbool (wfDoc idLib d)), ("repr", jbool (xmlRepr d)),
+                  ("trim", encDoc (trimDoc d))]
+    match writeXml d with
+    | .ok x => pure (jobj (("ok", encX x) :: flags))
+    | .error _ => pure (jobj (("raised", "ValueError") :: flags))
+  | "read" =>
+    let x ← decX (← getVal j "x")
+    let m := if (← getStr j "mode") == "strict" then Mode.strict else Mode.lenient
+    match readXml m idLib x with
+    | .ok (d, w) => pure (jobj [("ok", encDoc d), ("warns", jnat w)])
+    | .error e => pure (jobj [("raised", encRErr e)])
+  | _ => throw s!"unknown op {op}"
 
 end DrvC01
 
